@@ -415,6 +415,9 @@ pub struct SpillStats {
     pub braid_reads: std::cell::Cell<u64>,
     /// Spill instances that exceeded SPILL_WRITE_LIMIT writes (runaway loop).
     pub runaway: std::cell::Cell<u64>,
+    /// Fault injection: reads of braid-result spills fail from this read number on.
+    pub fail_braid_reads_from: std::cell::Cell<Option<u64>>,
+    pub injected_read_faults: std::cell::Cell<u64>,
 }
 
 /// In-memory spill that counts what the braid / convergence map actually spilled.
@@ -454,6 +457,10 @@ impl Spill for CountingSpill {
     fn read_at(&mut self, offset: usize, data: &mut [u8]) -> Result<(), StorageError> {
         self.stats.reads.set(self.stats.reads.get() + 1);
         let c = if self.is_conv { &self.stats.conv_reads } else { &self.stats.braid_reads };
+        if !self.is_conv && self.stats.fail_braid_reads_from.get().is_some_and(|n| c.get() >= n) {
+            self.stats.injected_read_faults.set(self.stats.injected_read_faults.get() + 1);
+            return Err(StorageError::IoError);
+        }
         c.set(c.get() + 1);
         self.inner.read_at(offset, data)
     }
